@@ -131,6 +131,12 @@ parser { two(/[0-9]+/, p, q); ";"; two("ab", q, p); }
         for an, atext in bad_args.items():
             body = f'loop q {{ "x"; k({atext}); }}' if kind == 'loop' else f'"x"; k({atext});'
             P.append((f'wrong-kind-{an}-for-{kind}', HEAD + dtext + '\nparser { ' + body + ' }\n', 'reject'))
+    P += forwarded_kind_programs()
+    P += empty_body_programs()
+    P += lexical_scope_programs()
+    rnd2 = random.Random(seed * 7919 + 13)      # own stream: the rand<i> programs below stay what they were
+    for i in range(max(3, n_random // 4)):
+        P += forwarded_and_empty_variations(rnd2, i)
     # seeded variations
     lits = ['"ab"', '"x"i', '/[0-9]+/', '/a|bc/', '"\\n"', '/[^,]+/']
     for i in range(n_random):
@@ -142,4 +148,198 @@ parser { two(/[0-9]+/, p, q); ";"; two("ab", q, p); }
             f'macro rd(out o, match d) {{ foreach {{ /[0-9]+/; }} do {{ o = [o * {k} + $last]; }} d; }}\nmacro pair(match sep) {{ rd(a, sep); rd(b, ";"); h2(); }}\nparser {{ pair({l2}); }}',
         ])
         P.append((f'rand{i}', HEAD + body + '\n', 'same'))
+    return P
+
+
+# --- a caller's own match/expr parameter handed on to a parameter of the other kind -------------------------------------------
+# The kind of an argument is the kind of what finally arrives, also when it arrives through one (or two) forwarding macros under a
+# bare parameter name. A plain "string" is of both kinds (a match, and a string-typed expr), so it is not in either list.
+MATCH_ONLY = {'regex': '/[a-c]+/', 'concat': '("a" /b+/)', 'caseless': '"ab"i', 'binstr': '"ab"b', 'binregex': 'b/[01-02]+/'}
+EXPR_ONLY = {'number': '5', 'bool': 'true', 'char': "'c'", 'math': "['A' + 1]", 'mathvar': '[a + b]', 'bare-out': 'a'}
+# what the callee does with the parameter: a position where both kinds are syntactically possible, one position of each kind, nothing
+MATCH_CALLEE = {'append': 's += p;', 'stmt': 'p;', 'unused': '"q";'}
+EXPR_CALLEE = {'append': 's += p;', 'assign': 'a = p;', 'cond': 'if p == 1 { h1(); }', 'unused': '"q";'}
+
+
+def forwarded_kind_programs():
+    P = []
+    # wrong kind behind a forwarded name: must be the same diagnosed error as when written at the call directly
+    for (akind, spell), (ckind, uses) in (((('match', MATCH_ONLY), ('expr', EXPR_CALLEE))), (('expr', EXPR_ONLY), ('match', MATCH_CALLEE))):
+        for an, atext in spell.items():
+            for un, utext in uses.items():
+                if not (an in ('regex', 'math') or un in ('append', 'unused')):
+                    continue        # full product for one spelling of each kind, the both-kinds position and the unused one for the others
+                callee = f'macro inner({ckind} p) {{ {utext} }}\n'
+                P.append((f'fwd-{akind}-{an}-to-{ckind}-{un}', HEAD + callee + f'macro outer({akind} x) {{ "k"; inner(x); }}\nparser {{ outer({atext}); ";"; }}\n', 'reject'))
+                if un in ('append', 'unused'):
+                    P.append((f'direct-{akind}-{an}-to-{ckind}-{un}', HEAD + callee + f'parser {{ "k"; inner({atext}); ";"; }}\n', 'reject'))
+        an, atext = next(iter(spell.items()))
+        callee = f'macro inner({ckind} p) {{ s += p; }}\n'
+        # through two forwarding macros; under the callee's own parameter name; as the second argument; spelled [x]; from inside a case clause
+        P.append((f'fwd2-{akind}-to-{ckind}', HEAD + callee + f'macro mid({akind} y) {{ inner(y); }}\nmacro outer({akind} x) {{ mid(x); }}\nparser {{ outer({atext}); ";"; }}\n', 'reject'))
+        P.append((f'fwd-samename-{akind}-to-{ckind}', HEAD + callee + f'macro outer({akind} p) {{ inner(p); }}\nparser {{ outer({atext}); ";"; }}\n', 'reject'))
+        P.append((f'fwd-second-arg-{akind}-to-{ckind}', HEAD + f'macro inner(out o, {ckind} p) {{ o += p; }}\nmacro outer(out o, {akind} x) {{ inner(o, x); }}\nparser {{ outer(s, {atext}); ";"; }}\n', 'reject'))
+        P.append((f'fwd-in-case-{akind}-to-{ckind}', HEAD + callee + f'macro outer({akind} x) {{ case {{ "1" -> {{ inner(x); }} "2" -> {{ h1(); }} }} }}\nparser {{ outer({atext}); ";"; }}\n', 'reject'))
+    P.append(('fwd-bracketed-match-to-expr', HEAD + 'macro inner(expr p) { s += p; }\nmacro outer(match x) { inner([x]); }\nparser { outer(/[a-c]+/); ";"; }\n', 'reject'))
+    # parameters of the identifier kinds, and plain global names, where a match is declared
+    for kind, actual in (('out', 'a'), ('hook', 'h1'), ('finishcode', 'F1'), ('macro', 'inner')):
+        for un in ('stmt', 'unused'):
+            P.append((f'fwd-{kind}-param-to-match-{un}', HEAD + f'macro inner(match p) {{ {MATCH_CALLEE[un]} }}\nmacro outer({kind} x) {{ inner(x); }}\nparser {{ "k"; outer({actual}); ";"; }}\n', 'reject'))
+    for actual in ('a', 'h1', 'nosuchname'):
+        P.append((f'bare-name-{actual}-for-unused-match', HEAD + f'macro inner(match p) {{ "q"; }}\nparser {{ "k"; inner({actual}); ";"; }}\n', 'reject'))
+    # controls: forwarding to the same kind (bare, inside a concatenation, inside a math expression, twice removed) is the textual expansion
+    P.append(('fwd-match-to-match', HEAD + '''
+macro take(match m) { s += m; }
+macro mid(match y) { take(y); ","; take((y "-")); }
+macro outer(match mm) { mid(mm); }
+parser { outer(/[a-c]+/); ";"; delete s; outer("xy"i); h1(); }
+''', 'same'))
+    P.append(('fwd-expr-to-expr', HEAD + '''
+macro put(expr e, out o) { s += e; o = [e + 1]; }
+macro mid(expr y, out o) { put(y, o); put([y + 1], o); }
+macro outer(expr x) { mid(x, a); ","; mid([x * 2], b); }
+parser { /[a-c]/; outer([$last - 32]); ";"; h1(); }
+''', 'same'))
+    P.append(('fwd-string-is-both-kinds', HEAD + '''
+macro put(expr e) { s += e; }
+macro take(match m) { s += m; }
+macro as_expr(match mm) { put(mm); "."; }
+macro as_match(expr x) { take(x); }
+parser { as_expr("ab"); as_match("cd"); h1(); }
+''', 'same'))
+    return P
+
+
+# --- macros whose body is empty: the expansion of a call is nothing, and nothing of the call may stay behind -------------------------
+# Their parameters are named like global outputs that the surrounding statements (before and after the call, in the same block, in
+# enclosing blocks and in the calling macro) read and assign.
+def lexical_scope_programs():
+    """a macro body sees its OWN parameters and the globals - not the parameters of the macros that called it (textual expansion
+    substitutes a parameter only inside the body it belongs to). Every program starts with a match: statements before the first match
+    run in start() and are not part of the compared traces."""
+    P = []
+    P.append(('callee-free-name-equals-callers-out-param', HEAD + '''
+macro inner() { b = 7; }
+macro outer(out b) { inner(); "x"; b = [b + 1]; }
+parser { "k"; outer(a); "y"; h1(); }
+''', 'same'))
+    P.append(('callee-own-out-param-vs-callers-expr-param', HEAD + '''
+macro inner(out v) { v = [v + 5]; }
+macro outer(expr v) { "x"; b = 1; inner(b); a = v; }
+parser { "k"; outer(100); "y"; h1(); }
+''', 'same'))
+    P.append(('callee-free-name-equals-callers-match-param', HEAD + '''
+macro inner() { s += "q"; "z"; }
+macro outer(match s) { s; inner(); }
+parser { "k"; outer("mm"); "y"; h1(); }
+''', 'same'))
+    P.append(('callee-free-name-equals-callers-expr-param-two-levels', HEAD + '''
+macro leaf() { a = [b + 1]; }
+macro mid(expr q) { leaf(); "m"; a = [a + q]; }
+macro top(expr b) { mid([b + 2]); "t"; }
+parser { "k"; b = 3; top(40); "y"; h1(); }
+''', 'same'))
+    return P
+
+
+def empty_body_programs():
+    P = []
+    P.append(('empty-macro-params-named-like-globals', HEAD + '''
+macro stub(out a, expr b) { }
+parser { "k"; a = [b + 1]; stub(b, [a + 40]); b = [a + 2]; ";"; h1(); }
+''', 'same'))
+    P.append(('empty-macro-in-nested-blocks', HEAD + '''
+macro stub(out b, expr a, match s) { }
+parser {
+    a = 3; "k"; b = [a];
+    loop {
+        b = [b + a];
+        case {
+            "x" -> { a = [a + b]; if a > 9 { a = [a - b]; stub(a, [b * 2], /z+/); } b = [a - 1]; }
+            "." -> { break; }
+        }
+        a = [b];
+    }
+    "w"; b = [a + 1]; h1();
+}
+''', 'same'))
+    P.append(('empty-macro-called-first-in-a-macro', HEAD + '''
+macro stub(out x, match y) { }
+macro outer(out b, expr a) { stub(b, "q"); b = a; "m"; }
+parser { "k"; a = [b + 3]; b = [a]; outer(a, [b + 5]); a = [a + b]; ";"; h1(); }
+''', 'same'))
+    P.append(('empty-macro-called-last-in-a-macro', HEAD + '''
+macro stub(out b, expr a) { }
+macro outer(out b, expr a) { b = a; "m"; b = [b + a]; stub(b, [a + 7]); }
+parser { "k"; a = [b + 3]; b = [a]; outer(b, [a + 5]); a = [a + b]; ";"; h1(); }
+''', 'same'))
+    P.append(('empty-macro-between-two-calls', HEAD + '''
+macro stub(out a, expr b) { }
+macro inc(out a, expr b) { a = [a + b]; }
+parser { "k"; inc(b, [a + 2]); stub(b, 9); inc(a, [b + 1]); "l"; stub(a, [b + b]); inc(b, [a]); ";"; h1(); }
+''', 'same'))
+    P.append(('empty-macro-every-kind', HEAD + '''
+macro nothing() { }
+macro stub(macro m, hook h, out a, match w, expr b, loop l, finishcode fc) { }
+parser { loop outer { "k"; a = [b + 1]; nothing(); stub(nothing, h1, b, /x+/, [a + 1], outer, F1); b = [a]; case { "!" -> { break outer; } "." -> { } } } h2(); }
+''', 'same'))
+    P.append(('empty-macro-yieldcode', '''// args: -fyield-support
+yieldcode Y1, Y2;
+out int n = 0;
+out int k = 0;
+macro later(yieldcode y, out n, expr k) { }
+parser { loop { case { "a" -> { n = [k + 1]; later(Y1, k, [n + 9]); yield Y1; } "c" -> { k = [n + 2]; later(Y2, n, k); yield Y2; } } } }
+''', 'same'))
+    # many calls one after the other (not nested): nothing accumulates from call to call
+    P.append(('empty-macro-70-sequential-calls', HEAD + 'macro t(out a) { }\nmacro it(expr b) { t(b); a = [a + b]; }\nparser { "k"; it(1); it(2); ";"; '
+              + ' '.join('t(b);' for i in range(66)) + ' a = [a + b]; h1(); }\n', 'same'))
+    P.append(('nonempty-macro-70-sequential-calls', HEAD + 'macro st(out a, expr b) { a = [a ^ b]; }\nparser { "k"; '
+              + ' '.join(f'st(b, {i});' for i in range(70)) + ' ";"; h1(); }\n', 'same'))
+    # the arguments of a call of an empty macro are checked like any others
+    P.append(('empty-macro-wrong-kind', HEAD + 'macro stub(out x) { }\nparser { "x"; stub(h1); }\n', 'reject'))
+    P.append(('empty-macro-wrong-kind-match', HEAD + 'macro stub(match x) { }\nparser { "x"; stub([a + 1]); }\n', 'reject'))
+    P.append(('empty-macro-too-many-args', HEAD + 'macro stub(out x) { }\nparser { "x"; stub(a, b); }\n', 'reject'))
+    P.append(('empty-macro-too-few-args', HEAD + 'macro stub(out x, expr y) { }\nparser { "x"; stub(a); }\n', 'reject'))
+    return P
+
+
+def forwarded_and_empty_variations(rnd, i):
+    """seeded variations of the two families above"""
+    P = []
+    # forwarding chain of random depth with a random wrong (or, for the control, right) final kind
+    akind = rnd.choice(['match', 'expr'])
+    right = rnd.random() < 0.3
+    ckind = akind if right else ('expr' if akind == 'match' else 'match')
+    an, atext = rnd.choice(sorted((MATCH_ONLY if akind == 'match' else EXPR_ONLY).items()))
+    uses = MATCH_CALLEE if ckind == 'match' else EXPR_CALLEE
+    un = rnd.choice(['append', 'unused'] if not right else ['append'])
+    if right and akind == 'expr' and an not in ('math', 'mathvar'):
+        an, atext = 'math', EXPR_ONLY['math']       # the only expr spellings that `s += p` takes
+    depth = rnd.randint(1, 3)
+    names = ['x', 'p', 'y', 'q']
+    src = HEAD + f'macro inner({ckind} p) {{ {uses[un]} }}\n'
+    prev = 'inner'
+    for d in range(depth):
+        nm_ = rnd.choice(names)
+        extra = rnd.choice(['', '"k"; ', 'h1(); '])
+        src += f'macro f{d}({akind} {nm_}) {{ {extra}{prev}({nm_}); }}\n'
+        prev = f'f{d}'
+    src += f'parser {{ "<"; {prev}({atext}); ";"; }}\n'
+    P.append((f'randfwd{i}-{akind}-{an}-to-{ckind}-{un}-depth{depth}', src, 'same' if right else 'reject'))
+    # an empty macro with parameters named like globals, called at a random place of a random statement list
+    k1, k2 = rnd.randint(1, 9), rnd.randint(1, 9)
+    pa, pb = rnd.choice([('a', 'b'), ('b', 'a')])
+    stmts = [f'a = [b + {k1}];', f'b = [a * {k2}];', 'a = [b];', f'if a > {k1} {{ h1(); }} else {{ b = [b + a]; }}', '"m";', f'b = [a - {k2}];', 'a = [a + b];']
+    rnd.shuffle(stmts)
+    call = f'stub({rnd.choice(["a", "b"])}, {rnd.choice(["[a + b]", "[a]", "[b * 3]", "7"])});'
+    pos = rnd.randint(0, len(stmts))
+    via = rnd.random() < 0.5
+    body = stmts[:pos] + (['wrap(b, [a + 1]);'] if via else [call]) + stmts[pos:]
+    src = HEAD + f'macro stub(out {pa}, expr {pb}) {{ }}\n'
+    if via:
+        inner_first = rnd.random() < 0.5
+        rest = f'{pa} = [{pb} + {k1}];'
+        src += f'macro wrap(out {pa}, expr {pb}) {{ {call + " " + rest if inner_first else rest + " " + call} }}\n'
+    src += 'parser { "k"; ' + ' '.join(body) + ' ";"; h2(); }\n'
+    P.append((f'randempty{i}', src, 'same'))
     return P
